@@ -262,7 +262,7 @@ func c07Check(a *artefacts, tier string, seed uint64, replay string) int {
 			mu.Unlock()
 			return
 		}
-		if bv.Exit != 0 || len(bv.Files) == 0 {
+		if bv.Exit != 0 || len(bv.Files) == 0 || strings.Contains(bw.Stdout, "Recovered from panic") {
 			mu.Lock()
 			stats["pairs.discarded-rejected"]++
 			mu.Unlock()
